@@ -113,6 +113,38 @@ pub fn main(args: &[String]) {
                         }
                     }
                 }
+                // contour end points of (a sample of) the simple glyphs at the top of their 16-bit range: the loaders add the
+                // number of points loaded before a component to them
+                if bytes.len() < 400_000 {
+                    if let Ok(f) = read_fonts::FontRef::new(&bytes) {
+                        use read_fonts::TableProvider;
+                        if let (Ok(loca), Ok(glyf), Some(gd)) = (f.loca(None), f.glyf(), f.data_for_tag(font_types::Tag::new(b"glyf"))) {
+                            let goff = gd.as_bytes().as_ptr() as usize - bytes.as_ptr() as usize;
+                            let n = loca.len();
+                            let mut done = 0;
+                            for gid in (0..n).step_by((n / 10).max(1)) {
+                                let (Some(a), Ok(Some(read_fonts::tables::glyf::Glyph::Simple(sg)))) = (loca.get_raw(gid), loca.get_glyf(font_types::GlyphId::new(gid as u32), &glyf)) else { continue };
+                                let nc = sg.number_of_contours().max(0) as usize;
+                                if nc == 0 || done >= 8 {
+                                    continue;
+                                }
+                                done += 1;
+                                for which in [0, nc - 1] {
+                                    for v in [0xFFFFu16, 0xFFFE, 0x7FFF] {
+                                        let p = goff + a as usize + 10 + 2 * which;
+                                        if p + 2 > bytes.len() {
+                                            continue;
+                                        }
+                                        let mut b = bytes.clone();
+                                        b[p..p + 2].copy_from_slice(&v.to_be_bytes());
+                                        judge(&name, &format!("glyph {gid}: contour end {which} = {v:#x}"), &b, 1, &mut ev, &mut rep);
+                                        rep.add("contour_end_mutations", 1);
+                                    }
+                                }
+                            }
+                        }
+                    }
+                }
                 // hostile variants of the file: truncations and random byte damage
                 for k in 0..muts {
                     let mut b = bytes.clone();
